@@ -121,7 +121,7 @@ def y_scripts(seed, count):
     rnd = random.Random("pool-%s" % seed)
     lines, cfgs = [], {}
     for i in range(count):
-        mx = rnd.choice([1, 1, 2, 2, 3, 4])
+        mx = rnd.choice([1, 1, 2, 2, 3, 4]) if rnd.random() > 0.04 else 0   # 0: no worker may ever be spawned, tasks wait for stop()/clear()
         n = rnd.randrange(1, 9)
         prog = ""
         tasks = 0
@@ -135,7 +135,7 @@ def y_scripts(seed, count):
             elif r < 0.80:
                 prog += "T"
             elif r < 0.90:
-                prog += "Q"
+                prog += "Q" if mx > 0 else "G"   # without workers nothing ever becomes quiescent-with-everything-run
             elif r < 0.925 and mx >= 2 and ("S" in prog or "K" in prog):
                 prog += "L"     # setMaxThreadCount(1) while workers exist
             elif r < 0.95 and mx >= 2 and tasks < 5 and "L" not in prog:
@@ -143,7 +143,7 @@ def y_scripts(seed, count):
                 tasks += 5
             else:
                 prog += "G"
-        if rnd.random() < 0.5:
+        if rnd.random() < 0.5 and mx > 0:
             prog += "Q"
         sched = "seed=%d" % rnd.randrange(1, 2 ** 31)
         if rnd.random() < 0.35:
